@@ -443,8 +443,8 @@ impl TargetActorHelper {
 //@contract
     ensures
         r.wf(),
-        /*[C01.book]*/ r.un(ExecutionKind::Build) == target_metadata.dependencies@.to_set(),
-        /*[C01.book]*/ r.un(ExecutionKind::Service) == target_metadata.dependencies@.to_set(),
+        /*[C01.book,C11.up-during-build,C06.propagate]*/ r.un(ExecutionKind::Build) == target_metadata.dependencies@.to_set(),
+        /*[C01.book,C11.up-during-build,C06.propagate]*/ r.un(ExecutionKind::Service) == target_metadata.dependencies@.to_set(),
         r.req(ExecutionKind::Build) == Set::<ActorId>::empty(),
         r.req(ExecutionKind::Service) == Set::<ActorId>::empty(),
         /*[C08.once-local]*/ r.to_execute && !r.executed,
@@ -461,7 +461,7 @@ impl TargetActorHelper {
 //@contract
     requires self.wf(),
     ensures
-        /*[C01.guard]*/ r ==> self.un(ExecutionKind::Build).len() == 0 && self.un(ExecutionKind::Service).len() == 0,
+        /*[C01.guard,C07.blocked,C11.up-during-build]*/ r ==> self.un(ExecutionKind::Build).len() == 0 && self.un(ExecutionKind::Service).len() == 0,
         /*[C08.once-local]*/ r ==> self.to_execute,
         r ==> self.req(kind).len() != 0,
         /*[C04.must-start]*/ (self.to_execute && self.req(kind).len() != 0 && self.un(ExecutionKind::Build).len() == 0 && self.un(ExecutionKind::Service).len() == 0) ==> r,
@@ -581,8 +581,8 @@ impl TargetActorHelper {
         final(self).unavailable_dependencies == old(self).unavailable_dependencies,
         final(self).requesters == old(self).requesters,
         /*[C06.keep-pending]*/ final(self).to_execute == old(self).to_execute,
-        /*[C06.no-stale-ack,C01.ok-build]*/ final(self).executed == !old(self).to_execute,
-        /*[C06.no-stale-ack,C01.ok-build]*/ old(self).to_execute ==> *final(tr) == *old(tr),
+        /*[C06.no-stale-ack,C01.ok-build,C07.blocked]*/ final(self).executed == !old(self).to_execute,
+        /*[C06.no-stale-ack,C01.ok-build,C07.blocked]*/ old(self).to_execute ==> *final(tr) == *old(tr),
         /*[C04.ack]*/ !old(self).to_execute ==> bcast_word(*old(tr), *final(tr), old(self).req(kind), kind, Word::Ok { actual: true, dep_actual: actual_of(old(tr).inlog, kind).len() > 0 }),
         !old(self).to_execute && old(self).target_id == old(tr).me ==> final(tr).ids_ok == old(tr).ids_ok,
 //@end
@@ -831,13 +831,13 @@ impl BuildTargetActor {
             invariant
                 self.helper.wf(), self.helper.same_static(&h0), self.target == t0,
                 /*[C01.identity]*/ self.helper.target_id == tr.me && tr.ids_ok,
-                /*[C01.book]*/ kinds_book(&self.helper, *tr),
+                /*[C01.book,C11.up-during-build,C06.propagate]*/ kinds_book(&self.helper, *tr),
                 /*[C08.single-inflight]*/ ongoing_build_fuse.running() == ongoing_build_cancellation_sender.is_some(),
                 self.helper.to_execute ==> !self.helper.executed,
-                /*[C01.ok-build]*/ self.helper.executed ==> !ongoing_build_fuse.running() && tr.last_done_ok,
+                /*[C01.ok-build,C07.blocked]*/ self.helper.executed ==> !ongoing_build_fuse.running() && tr.last_done_ok,
                 // a successful (or skipped) run that nothing invalidated since is recorded as executed - which is what makes `told_if` say something
                 /*[C04.ack]*/ tr.last_done_ok && !ongoing_build_fuse.running() && tr.starts.len() > 0 ==> self.helper.executed || self.helper.to_execute,
-                /*[C01.ok-build]*/ told_only_if(&self.helper, *tr, ExecutionKind::Build, self.helper.executed && !self.helper.to_execute),
+                /*[C01.ok-build,C07.blocked]*/ told_only_if(&self.helper, *tr, ExecutionKind::Build, self.helper.executed && !self.helper.to_execute),
                 /*[C04.ack]*/ told_if(&self.helper, *tr, ExecutionKind::Build, self.helper.executed && !self.helper.to_execute),
                 /*[C11.build-false]*/ only_ok_actual(*tr, ExecutionKind::Service, false),
                 /*[C11.build-true]*/ oks_actual(*tr, ExecutionKind::Build, true),
@@ -858,7 +858,7 @@ impl BuildTargetActor {
             broadcast use vstd::std_specs::hash::group_hash_axioms;
 //@before 0 `ongoing_build_fuse.set(`
                 proof { lemma_start_ready(&self.helper, *tr); }
-                assert(/*[C01.start-build]*/ all_deps_ok(&self.helper, *tr));
+                assert(/*[C01.start-build,C07.blocked,C11.up-during-build]*/ all_deps_ok(&self.helper, *tr));
                 assert(/*[C08.once-local]*/ self.helper.to_execute);
 //@after 0 `ongoing_build_fuse.set(`
                 assert(/*[C02.wiring]*/ self.wired_last(*tr));
@@ -946,7 +946,7 @@ impl ServiceTargetActor {
     ensures
         final(self).helper == old(self).helper, final(self).target == old(self).target,
         /*[C11.single-instance]*/ reap_inv(final(self).service_process, *final(tr)),
-        /*[C01.ok-service]*/ r is Ok ==> final(self).service_process is Some,
+        /*[C01.ok-service,C07.blocked,C11.up-during-build]*/ r is Ok ==> final(self).service_process is Some,
         r is Err ==> final(self).service_process is None,
         same_but_procs(*old(tr), *final(tr)),
         /*[C08.once-local]*/ final(tr).spawn_calls == old(tr).spawn_calls + 1,
@@ -989,11 +989,11 @@ impl ServiceTargetActor {
             invariant
                 /*[C04.nopanic]*/ self.helper.wf(), self.helper.same_static(&h0), self.target == t0,
                 /*[C01.identity]*/ self.helper.target_id == tr.me && tr.ids_ok,
-                /*[C01.book]*/ kinds_book(&self.helper, *tr),
+                /*[C01.book,C11.up-during-build,C06.propagate]*/ kinds_book(&self.helper, *tr),
                 self.helper.to_execute ==> !self.helper.executed,
-                /*[C01.ok-service]*/ self.helper.executed && !nonempty(tr.unreq) ==> self.service_process is Some,
+                /*[C01.ok-service,C07.blocked,C11.up-during-build]*/ self.helper.executed && !nonempty(tr.unreq) ==> self.service_process is Some,
                 /*[C04.ack]*/ self.service_process is Some ==> self.helper.executed || self.helper.to_execute,
-                /*[C01.ok-service]*/ told_only_if(&self.helper, *tr, ExecutionKind::Service, self.helper.executed && !self.helper.to_execute),
+                /*[C01.ok-service,C07.blocked,C11.up-during-build]*/ told_only_if(&self.helper, *tr, ExecutionKind::Service, self.helper.executed && !self.helper.to_execute),
                 /*[C04.ack]*/ told_if(&self.helper, *tr, ExecutionKind::Service, self.helper.executed && !self.helper.to_execute),
                 /*[C11.service-true]*/ oks_actual(*tr, ExecutionKind::Service, true),
                 /*[C11.service-true]*/ only_ok_actual(*tr, ExecutionKind::Build, false),
@@ -1011,7 +1011,7 @@ impl ServiceTargetActor {
             broadcast use vstd::std_specs::hash::group_hash_axioms;
 //@before 0 `self.helper.set_execution_started();`
                 proof { lemma_start_ready(&self.helper, *tr); }
-                assert(/*[C01.start-service]*/ all_deps_ok(&self.helper, *tr));
+                assert(/*[C01.start-service,C07.blocked]*/ all_deps_ok(&self.helper, *tr));
                 assert(/*[C08.once-local]*/ self.helper.to_execute);
 //@after 0 `self.helper.set_execution_started();`
                 proof { tr.last_start_at = tr.inlog.len(); }
@@ -1095,12 +1095,12 @@ impl AggregateTargetActor {
                 /*[C04.nopanic]*/ self.helper.wf(), self.helper.same_static(&h0),
                 /*[C04.nopanic]*/ dependencies@.contains_key(ExecutionKind::Build) && dependencies@.contains_key(ExecutionKind::Service),
                 /*[C01.identity]*/ self.helper.target_id == tr.me && tr.ids_ok,
-                /*[C01.book]*/ kinds_book(&self.helper, *tr),
+                /*[C01.book,C11.up-during-build,C06.propagate]*/ kinds_book(&self.helper, *tr),
                 /*[C20.actual,C11.agg-or]*/ dependencies@[ExecutionKind::Build]@ == actual_of(tr.inlog, ExecutionKind::Build),
                 /*[C20.actual,C11.agg-or]*/ dependencies@[ExecutionKind::Service]@ == actual_of(tr.inlog, ExecutionKind::Service),
-                /*[C01.ok-aggregate]*/ told_only_if(&self.helper, *tr, ExecutionKind::Build, self.helper.un(ExecutionKind::Build).len() == 0),
+                /*[C01.ok-aggregate,C07.blocked]*/ told_only_if(&self.helper, *tr, ExecutionKind::Build, self.helper.un(ExecutionKind::Build).len() == 0),
                 /*[C04.ack,C20.fan-in]*/ told_if(&self.helper, *tr, ExecutionKind::Build, self.helper.un(ExecutionKind::Build).len() == 0),
-                /*[C01.ok-aggregate]*/ told_only_if(&self.helper, *tr, ExecutionKind::Service, self.helper.un(ExecutionKind::Service).len() == 0),
+                /*[C01.ok-aggregate,C07.blocked]*/ told_only_if(&self.helper, *tr, ExecutionKind::Service, self.helper.un(ExecutionKind::Service).len() == 0),
                 /*[C04.ack,C20.fan-in]*/ told_if(&self.helper, *tr, ExecutionKind::Service, self.helper.un(ExecutionKind::Service).len() == 0),
                 /*[C20.actual,C11.agg-or]*/ agg_actual_ok(*tr, ExecutionKind::Build),
                 /*[C20.actual,C11.agg-or]*/ agg_actual_ok(*tr, ExecutionKind::Service),
@@ -1177,13 +1177,13 @@ impl AggregateTargetActor {
                                 let sent = inserted && self.helper.un(kind).len() == 1;
                                 if kind == ExecutionKind::Build {
                                     if sent {
-                                        /*[C01.ok-aggregate]*/ lemma_ack_bcast_inval(self.helper.req(ExecutionKind::Build), tr_pre1.last_b, tr.last_b, tr.unreq, ExecutionKind::Build, un_b1.len() == 0);
+                                        /*[C01.ok-aggregate,C07.blocked]*/ lemma_ack_bcast_inval(self.helper.req(ExecutionKind::Build), tr_pre1.last_b, tr.last_b, tr.unreq, ExecutionKind::Build, un_b1.len() == 0);
                                     } else {
                                         assert(un_b1.len() > 0);
                                     }
                                 } else {
                                     if sent {
-                                        /*[C01.ok-aggregate]*/ lemma_ack_bcast_inval(self.helper.req(ExecutionKind::Service), tr_pre1.last_s, tr.last_s, tr.unreq, ExecutionKind::Service, un_s1.len() == 0);
+                                        /*[C01.ok-aggregate,C07.blocked]*/ lemma_ack_bcast_inval(self.helper.req(ExecutionKind::Service), tr_pre1.last_s, tr.last_s, tr.unreq, ExecutionKind::Service, un_s1.len() == 0);
                                     } else {
                                         assert(un_s1.len() > 0);
                                     }
@@ -1194,12 +1194,12 @@ impl AggregateTargetActor {
                                 let sent = removed && self.helper.un(kind).len() == 0;
                                 if kind == ExecutionKind::Build {
                                     if sent {
-                                        /*[C01.ok-aggregate,C04.ack]*/ lemma_ack_bcast_ok(self.helper.req(ExecutionKind::Build), tr_pre.last_b, tr.last_b, tr.unreq, ExecutionKind::Build, un_b0.len() == 0,
+                                        /*[C01.ok-aggregate,C04.ack,C07.blocked]*/ lemma_ack_bcast_ok(self.helper.req(ExecutionKind::Build), tr_pre.last_b, tr.last_b, tr.unreq, ExecutionKind::Build, un_b0.len() == 0,
                                             Word::Ok { actual: dependencies@[ExecutionKind::Build]@.len() != 0, dep_actual: actual_of(tr_pre.inlog, ExecutionKind::Build).len() > 0 });
                                     }
                                 } else {
                                     if sent {
-                                        /*[C01.ok-aggregate,C04.ack]*/ lemma_ack_bcast_ok(self.helper.req(ExecutionKind::Service), tr_pre.last_s, tr.last_s, tr.unreq, ExecutionKind::Service, un_s0.len() == 0,
+                                        /*[C01.ok-aggregate,C04.ack,C07.blocked]*/ lemma_ack_bcast_ok(self.helper.req(ExecutionKind::Service), tr_pre.last_s, tr.last_s, tr.unreq, ExecutionKind::Service, un_s0.len() == 0,
                                             Word::Ok { actual: dependencies@[ExecutionKind::Service]@.len() != 0, dep_actual: actual_of(tr_pre.inlog, ExecutionKind::Service).len() > 0 });
                                     }
                                 }
